@@ -21,6 +21,8 @@ type SimDB struct {
 	Dropped   []string
 	Writes    int // total batch writes ever
 	CrashFire int
+	// OpenIterators: database iterators handed out and not (yet) closed
+	OpenIterators int
 }
 
 // TornSpec describes a crash inside Commit.
@@ -175,4 +177,73 @@ func (d *SimDB) Clone() *SimDB {
 		_ = n.MemDB.Set(append([]byte{}, it.Key()...), append([]byte{}, it.Value()...))
 	}
 	return n
+}
+
+// Iterators. A MemDB iterator holds the database's read lock until it is closed, so one iterator
+// that code under test forgets to close (a handler or an invariant that returns early) would block
+// the next Commit forever — on a real disk it is a resource leak, not a deadlock. The simulated disk
+// therefore hands out iterators over a copy of the range taken at creation time (the same snapshot
+// semantics, no lock held afterwards). LeakedIterators counts those that were never closed.
+type drainedIter struct {
+	start, end []byte
+	ks, vs     [][]byte
+	i          int
+	closed     *int
+}
+
+func (d *SimDB) drain(it dbm.Iterator, err error, start, end []byte) (dbm.Iterator, error) {
+	if err != nil {
+		return nil, err
+	}
+	di := &drainedIter{start: start, end: end, closed: &d.OpenIterators}
+	for ; it.Valid(); it.Next() {
+		di.ks = append(di.ks, append([]byte(nil), it.Key()...))
+		di.vs = append(di.vs, append([]byte(nil), it.Value()...))
+	}
+	if e := it.Error(); e != nil {
+		it.Close()
+		return nil, e
+	}
+	it.Close()
+	d.OpenIterators++
+	return di, nil
+}
+
+func (d *SimDB) Iterator(start, end []byte) (dbm.Iterator, error) {
+	it, err := d.MemDB.Iterator(start, end)
+	return d.drain(it, err, start, end)
+}
+
+func (d *SimDB) ReverseIterator(start, end []byte) (dbm.Iterator, error) {
+	it, err := d.MemDB.ReverseIterator(start, end)
+	return d.drain(it, err, start, end)
+}
+
+func (it *drainedIter) Domain() ([]byte, []byte) { return it.start, it.end }
+func (it *drainedIter) Valid() bool              { return it.i < len(it.ks) }
+func (it *drainedIter) Next() {
+	if !it.Valid() {
+		panic("iterator is invalid")
+	}
+	it.i++
+}
+func (it *drainedIter) Key() []byte {
+	if !it.Valid() {
+		panic("iterator is invalid")
+	}
+	return it.ks[it.i]
+}
+func (it *drainedIter) Value() []byte {
+	if !it.Valid() {
+		panic("iterator is invalid")
+	}
+	return it.vs[it.i]
+}
+func (it *drainedIter) Error() error { return nil }
+func (it *drainedIter) Close() error {
+	if it.closed != nil {
+		*it.closed--
+		it.closed = nil
+	}
+	return nil
 }
